@@ -45,8 +45,16 @@ Ivals == {"default", "custom", "zero", "negative"}
 (* entry: how the server is launched - "api": an embedding program calls    *)
 (* NewConfig / server.New itself; "cli": the command line entry point       *)
 (* (main.start through the cli.App: --config and the other flags).          *)
+(* progAt: WHEN the embedding program assigns Config.Telemetry - before it   *)
+(* calls server.New(cfg), or between server.New(cfg) and Start() (the       *)
+(* Config is handed over by pointer; both are "programmatic config").       *)
+(* other: what else stands in the configuration file next to telemetry.* -  *)
+(* nothing, the activity stream switched on / off, a fuller configuration.  *)
+(* Neither may influence whether reports are sent.                          *)
+Others == {"none", "activityOn", "activityOff", "full"}
 Routes == [file : Vals, env : Vals, prog : Tri, hasFile : BOOLEAN,
-          ival : Ivals, ivalBy : {"file", "prog"}, idfile : {"ok", "unusable"}, entry : {"api", "cli"}]
+          ival : Ivals, ivalBy : {"file", "prog"}, idfile : {"ok", "unusable"}, entry : {"api", "cli"},
+          progAt : {"before", "between"}, other : Others]
 B(t) == t \in TrueSp
 
 \* documented fields of a report (CHANGELOG "Anonymous Telemetry"): instance id,
@@ -85,6 +93,8 @@ Feasible(r) ==
   /\ (r.ival \in {"zero", "negative"}) => ~DocEnabled(r)
   /\ (r.ivalBy = "file") => (r.hasFile /\ r.ival # "default")
   /\ (r.ival = "default") => r.ivalBy = "prog"
+  /\ (r.progAt = "between") => (r.prog # "unset" /\ r.entry = "api")
+  /\ (r.other # "none") => r.hasFile
   \* the command line has no telemetry flag: nothing is assigned programmatically
   /\ (r.entry = "cli") => (r.prog = "unset" /\ r.idfile = "ok" /\ (r.ival = "default" \/ r.ivalBy = "file"))
 
